@@ -93,6 +93,56 @@ pub fn for_each_branching(ops: &Vec<Vec<usize>>, vals: &[usize], max_branched: u
     rec(total, max_branched.min(total), &mut idx, vals.len(), &mut emit);
 }
 
+/// Structured branching assignments on one D-set (operations given 0-based): "uniform" = m(i, i+1) equal to the lcm
+/// of the orbit lengths on every chamber (as in a regular tiling: degrees never distinguish chambers, so symmetry
+/// and folding are maximal), the same with every single orbit at twice its value, and four "spread" assignments in
+/// which every orbit is branched (all values distinct ascending / descending, period 2, period 3).
+pub fn structured_assignments(ops: &Vec<Vec<usize>>) -> Vec<RS> {
+    fn gcd(a: usize, b: usize) -> usize {
+        if b == 0 { a } else { gcd(b, a % b) }
+    }
+    let n = ops[0].len();
+    let dim = ops.len() - 1;
+    let orbs = two_orbits(ops);
+    let rlen = |i: usize, d: usize| -> usize {
+        let mut e = d;
+        let mut r = 0;
+        loop {
+            e = ops[i + 1][ops[i][e]];
+            r += 1;
+            if e == d {
+                return r;
+            }
+        }
+    };
+    let mut out = vec![];
+    let mut push = |vals: &dyn Fn(usize, usize) -> usize| {
+        let mut v = vec![vec![0; n]; dim];
+        for (k, (i, mem)) in orbs.iter().enumerate() {
+            for &d in mem {
+                v[*i][d] = vals(k, *i);
+            }
+        }
+        out.push(RS { n, ops: ops.clone(), v });
+    };
+    let mut l = vec![1usize; dim];
+    for (i, mem) in &orbs {
+        let r = rlen(*i, mem[0]);
+        l[*i] = l[*i] / gcd(l[*i], r) * r;
+    }
+    let base: Vec<usize> = orbs.iter().map(|(i, mem)| l[*i] / rlen(*i, mem[0])).collect();
+    push(&|k, _| base[k]);
+    for a in 0..orbs.len() {
+        push(&|k, _| if k == a { 2 * base[k] } else { base[k] });
+    }
+    let total = orbs.len();
+    push(&|k, _| k + 2);
+    push(&|k, _| total - k + 1);
+    push(&|k, _| 1 + k % 2);
+    push(&|k, i| 1 + (k + i) % 3);
+    out
+}
+
 pub fn ops_connected(ops: &Vec<Vec<usize>>) -> bool {
     let n = ops[0].len();
     let mut seen = vec![false; n];
